@@ -20,7 +20,7 @@ import (
 type C11Rule struct {
 	Name string `json:"name"`
 	Sal  int64  `json:"sal"`
-	Kind string `json:"kind"` // val | bare | nested | none | failbefore | failinret | flag
+	Kind string `json:"kind"` // val | bare | nested | none | failbefore | failinret | flag | valtag (sets the stop tag, then returns)
 	Lit  string `json:"lit,omitempty"`
 }
 
@@ -53,6 +53,8 @@ func (r C11Rule) text() string {
 		b.WriteString("  FX(@name)\n  return 1 + \"a\"\n")
 	case "val":
 		b.WriteString("  E(@name)\n  return " + r.Lit + "\n")
+	case "valtag":
+		b.WriteString("  stag.StopTag = true\n  E(@name)\n  return " + r.Lit + "\n")
 	case "bare":
 		b.WriteString("  E(@name)\n  return\n")
 	case "nested":
@@ -71,7 +73,7 @@ func (r C11Rule) fails() bool { return r.Kind == "failbefore" || r.Kind == "fail
 // returns reports whether the rule reaches a return when it runs with the given flag.
 func (r C11Rule) returns(flag bool) (bool, string) {
 	switch r.Kind {
-	case "val", "nested":
+	case "val", "nested", "valtag":
 		return true, r.Lit
 	case "bare":
 		return true, "<nil>"
@@ -103,10 +105,10 @@ func init() {
 			if big {
 				n = uni(t, "nrules_big", 20, 40)
 			}
-			kinds := []string{"val", "val", "bare", "nested", "none", "failbefore", "failinret", "flag", "flag"}
+			kinds := []string{"val", "val", "bare", "nested", "none", "failbefore", "failinret", "flag", "flag", "valtag"}
 			for i := 0; i < n; i++ {
 				k := kinds[uni(t, fmt.Sprintf("kind%d", i), 0, len(kinds)-1)]
-				if big && (k == "failbefore" || k == "failinret") {
+				if big && (k == "failbefore" || k == "failinret" || k == "valtag") {
 					k = "val"
 				}
 				c.Rules = append(c.Rules, C11Rule{Name: fmt.Sprintf("r%d", i), Sal: int64(uni(t, fmt.Sprintf("sal%d", i), -2, 4)), Kind: k, Lit: c11Lits[uni(t, fmt.Sprintf("lit%d", i), 0, len(c11Lits)-1)]})
@@ -195,7 +197,7 @@ func checkC11(ci interface{}, x *Ctx) {
 	for i, r := range c.Rules {
 		text.WriteString(r.text())
 		byName[r.Name] = r
-		mrules[i] = models.Rule{Name: r.Name, Sal: r.Sal, Fails: r.fails()}
+		mrules[i] = models.Rule{Name: r.Name, Sal: r.Sal, Fails: r.fails(), SetsTag: r.Kind == "valtag"}
 	}
 	tg := &schedTarget{env: env}
 	if c.Pool {
